@@ -34,8 +34,8 @@ def reference(key: dict) -> dict:
     except Exception as exc:  # noqa: BLE001
         return {"impose_error": f"{type(exc).__name__}: {exc}"}
     outcome, _ = zc.outcome_of(builder.formulate)
-    back = zc.config_key(builder, key["rx"])
-    if back != key:
+    back = json.loads(json.dumps(zc.config_key(builder, key["rx"])))
+    if back != json.loads(json.dumps(key)):
         outcome["impose_mismatch"] = json.dumps([key, back], sort_keys=True)[:600]
     return outcome
 
